@@ -43,11 +43,14 @@ def brief(case):
 def report(R, viol, cases):
     for idx, clauses in viol:
         for cl in clauses:
+            label = cases[idx].get("label", "")
+            if label.startswith("probe:") and cl.endswith(":probe"):
+                cl = cl + "@" + label[6:]          # which handler (and content type) let the actor through
             R.violation(cl, "real code violates clause %s (clause:blamed operation) in history %s" % (cl, json.dumps(brief(cases[idx]))), brief(cases[idx]))
 
 
 def run(R):
-    R.trusted += ["translator harness/cmd/gen_gates (go/ast: CheckIfAllowedPermission call sites in x/*/keeper/msg_server.go, module keeper wrappers, ProposalPermission/VotePermission bodies; anything outside the fragment is a translator error)",
+    R.trusted += ["translator harness/cmd/gen_gates (go/ast: CheckIfAllowedPermission call sites in x/*/keeper/msg_server.go, module keeper wrappers, ProposalPermission/VotePermission bodies, call sites writing the permission stores, fingerprints of the modelled functions; interface registry: every kira sdk.Msg type; anything outside the fragment is a translator error)",
                   "hand-written model Model/Perm.v of x/gov permissions (util.go, network_actor.go, permission_registry.go, types.go, actor.go, msg_server.go editors, proposal_handler.go, genesis.go, recovery rotation gov part; net effect of InitGenesis per actor / per role and of the rotation), validated by the differential run",
                   "no axioms: every theorem of Properties/C07.v is closed under the global context"]
     R.assume += ["KV store prefixes are maps; protobuf round trip of NetworkActor / Permissions is faithful (observed through the keeper getters)",
@@ -66,7 +69,7 @@ def run(R):
     for w in wrappers:
         R.violation("gate-wrapper:" + w, "the handler requests one permission but the module keeper's CheckIfAllowedPermission wrapper checks another: " + w,
                     {"translator": "harness/cmd/gen_gates", "row": w})
-    n = 600 if R.tier == "quick" else 3000
+    n = 400 if R.tier == "quick" else 2500
     obs = observe(R, n)
     total = steps = 0
     if obs:
